@@ -64,7 +64,7 @@ PROPS = {
     },
     "C07": {
         "suites": [("gw", "counts"), ("gw", "malformed"), ("gw", "mixed"), ("pure", "rpc")],
-        "theorems_carry": "the dispatcher is total: every method string is version / answered invalid / handed on with a valid rid; an unsubscribe is always answered with exactly one of three outcomes",
+        "theorems_carry": "the dispatcher is total: every method string is version / answered invalid / handed on with a valid rid; an unsubscribe is always answered with exactly one of three outcomes; the ready-callback counter of a request tree fires its reply exactly once under the registration discipline of collectRefs, for every order in which the subscriptions load (abstract machine Ready)",
         "correspondence_only": "that every registered continuation runs exactly once: lockstep + response monitor at quiescence. Known findings D2, D10.",
         "assumptions": [],
     },
